@@ -393,3 +393,47 @@ func (s *netSpec) buildModular(mods []netModule) *network.Network {
 	}
 	return network.NewModularNetwork(in, out, nodes, control, 1)
 }
+
+// ladderNet: a network of dozens to hundreds of hidden neurons that stays cheap to search - one long chain from the first
+// input to the first output plus a handful of forward skip links (among them, now and then, a direct link from a sensor to
+// an output), so that most outputs are reached by a short and by a long path.
+func ladderNet(r *rand.Rand) *netSpec {
+	s := &netSpec{NIn: 1 + r.Intn(2), NBias: r.Intn(2), NHid: pick(r, 30+r.Intn(30), 62+r.Intn(6), 70+r.Intn(60), 130+r.Intn(200)), NOut: 1 + r.Intn(2)}
+	ns, total := s.sensors(), s.total()
+	s.Acts = make([]neatmath.NodeActivationType, total)
+	for i := range s.Acts {
+		s.Acts[i] = neatmath.SigmoidSteepenedActivation
+		if i < ns {
+			s.Acts[i] = neatmath.NullActivation
+		}
+	}
+	has := map[[2]int]bool{}
+	add := func(u, v int) {
+		if !has[[2]int{u, v}] {
+			has[[2]int{u, v}] = true
+			s.Edges = append(s.Edges, netEdge{From: u, To: v, W: r.NormFloat64()})
+		}
+	}
+	add(0, ns)
+	for v := ns + 1; v < ns+s.NHid; v++ {
+		add(v-1, v)
+	}
+	firstOut := ns + s.NHid
+	// the chain ends in the first output, or some links before its end
+	add(firstOut-1-r.Intn(3), firstOut)
+	for o := firstOut + 1; o < total; o++ {
+		add(ns+r.Intn(s.NHid), o)
+	}
+	for k := 0; k < 1+r.Intn(6); k++ {
+		u := r.Intn(firstOut - 2)
+		v := u + 2 + r.Intn(firstOut-u-2)
+		if v < ns {
+			v = ns + r.Intn(s.NHid)
+		}
+		add(u, v)
+	}
+	if r.Intn(2) == 0 {
+		add(r.Intn(ns), firstOut+r.Intn(s.NOut)) // sensor -> output
+	}
+	return s
+}
